@@ -5,3 +5,4 @@ pub mod tokens;
 pub mod reset;
 pub mod refs;
 pub mod schemaw;
+pub mod keys;
